@@ -153,6 +153,36 @@ MUTATIONS = [
     ("calc_angles NEUTRAL: locals renamed, explicit concatenation", "neutral", U,
      [("    for n in g.nodes:\n        angles += [(a, n, b) for (a,b) in itertools.combinations(g.neighbors(n), 2)]\n",
        "    for centre in g.nodes:\n        new = [(x, centre, y) for (x, y) in itertools.combinations(g.neighbors(centre), 2)]\n        angles = angles + new\n")], "C19", "pass"),
+    # ---- batch 8, item 1: calc_dihedrals
+    ("calc_dihedrals: a_neighbors.remove(b) dropped", "breaking", U, [("        a_neighbors.remove(b)\n", "")], "C19", "fail"),
+    ("calc_dihedrals: b_neighbors.remove(a) -> remove(b)", "breaking", U, [("        b_neighbors.remove(a)\n", "        b_neighbors.remove(b)\n")], "C19", "fail"),
+    ("calc_dihedrals: (a1, a, b, b1) -> (a1, b, a, b1)", "breaking", U,
+     [("dihedrals += [(a1, a, b, b1) for a1", "dihedrals += [(a1, b, a, b1) for a1")], "C19", "fail"),
+    ("calc_dihedrals: generators exchanged (b1 outer)", "breaking", U,
+     [("for a1 in a_neighbors for b1 in b_neighbors]", "for b1 in b_neighbors for a1 in a_neighbors]")], "C19", "fail"),
+    ("calc_dihedrals: b_neighbors = list(g.adj[a])", "breaking", U, [("        b_neighbors = list(g.adj[b])\n", "        b_neighbors = list(g.adj[a])\n")], "C19", "fail"),
+    ("calc_dihedrals: loop over the bond list instead of g.edges", "breaking", U, [("    for a, b in g.edges:\n", "    for a, b in bonds:\n")], "C19", "fail"),
+    ("calc_dihedrals: dihedrals = … instead of +=", "breaking", U,
+     [("        dihedrals += [(a1, a, b, b1) for a1", "        dihedrals = [(a1, a, b, b1) for a1")], "C19", "fail"),
+    ("calc_dihedrals NEUTRAL: g.neighbors instead of g.adj, locals renamed, explicit concatenation", "neutral", U,
+     [("        a_neighbors = list(g.adj[a])\n        a_neighbors.remove(b)\n        b_neighbors = list(g.adj[b])\n        b_neighbors.remove(a)\n\n        dihedrals += [(a1, a, b, b1) for a1 in a_neighbors for b1 in b_neighbors]\n",
+       "        left = list(g.neighbors(a))\n        left.remove(b)\n        right = list(g.neighbors(b))\n        right.remove(a)\n        new = [(x, a, b, y) for x in left for y in right]\n        dihedrals = dihedrals + new\n")], "C19", "pass"),
+    # ---- batch 8, item 2: the type-numbering slice of assign_bond_types / assign_angle_types
+    ("assign_bond_types: dict.fromkeys -> set", "unsupported", U,
+     [("unique_bond_types = list(dict.fromkeys(bond_types).keys())", "unique_bond_types = list(set(bond_types))")], "C19", "Unsupported"),
+    ("assign_bond_types: len(exclude) >= 2 -> > 2", "breaking", U,
+     [("    if exclude is not None and len(exclude) >= 2:", "    if exclude is not None and len(exclude) > 2:")], "C19", "fail"),
+    ("assign_angle_types: len(exclude) >= 3 -> >= 2", "breaking", U,
+     [("    if exclude is not None and len(exclude) >= 3:", "    if exclude is not None and len(exclude) >= 2:")], "C19", "fail"),
+    ("assign_bond_types: typekey dropped from the keys", "breaking", U,
+     [("bond_types = [typekey([uff_atom_types[a] for a in atup]) for atup in atoms.bonds]", "bond_types = [[uff_atom_types[a] for a in atup] for atup in atoms.bonds]")], "C19", "fail"),
+    ("assign_angle_types: numbered against the reversed unique list", "breaking", U,
+     [("    unique_angle_types = list(dict.fromkeys(angle_types).keys())\n", "    unique_angle_types = list(dict.fromkeys(angle_types).keys())\n    unique_angle_types.reverse()\n")], "C19", "fail"),
+    ("assign_bond_types: exclusion result not stored", "breaking", U,
+     [("            atoms.bonds = delete_if_all_in_set(atoms.bonds, exclude)\n", "            delete_if_all_in_set(atoms.bonds, exclude)\n")], "C19", "fail"),
+    ("assign_bond_types NEUTRAL: list(dict.fromkeys(..)) without .keys(), locals renamed", "neutral", U,
+     [("    unique_bond_types = list(dict.fromkeys(bond_types).keys())\n    # bond_types are the index of the type in the unique_bond_types list\n    atoms.bond_types = [unique_bond_types.index(bt) for bt in bond_types]\n",
+       "    uniq = list(dict.fromkeys(bond_types))\n    atoms.bond_types = [uniq.index(k) for k in bond_types]\n    unique_bond_types = uniq\n")], "C19", "pass"),
     ("getitem NEUTRAL: keywords reordered", "neutral", A,
      [("        return Atoms(positions=np.take(self.positions, idx, axis=0),\n                     atom_types=np.take(self.atom_types, idx, axis=0),\n",
        "        return Atoms(atom_types=np.take(self.atom_types, idx, axis=0),\n                     positions=np.take(self.positions, idx, axis=0),\n")], "C09", "pass"),
@@ -186,6 +216,8 @@ def scratch_file(ids, code6_text):
         order.append(mod)
     for i in ids:
         visit("MofunModel.Props.%sCode6" % i)
+        if os.path.exists(os.path.join(core.LEAN, "MofunModel", "Props", "%sCode8.lean" % i)):      # batch 8 (same generated file)
+            visit("MofunModel.Props.%sCode8" % i)
     parts = [code6_text] + [open(os.path.join(core.LEAN, *m.split(".")) + ".lean").read() for m in order]
     own = set(order) | {GEN6}
     imports = []
@@ -296,17 +328,52 @@ def python_side():
 
     def comb2(xs):
         return [(xs[i], xs[j]) for i in range(len(xs)) for j in range(i + 1, len(xs))]
+
+    def edges_of(edges):                       # Py6.nxEdges: nodes in order, neighbours in order, completed nodes skipped
+        out, seen = [], []
+        for n in nodes(edges):
+            out += [(n, m) for m in neighbors(edges, n) if m not in seen]
+            seen.append(n)
+        return out
+
+    def remove(xs, v):                         # Py6.listRemove?
+        if v not in xs:
+            return None
+        i = xs.index(v)
+        return xs[:i] + xs[i + 1:]
     g = nx.Graph(); g.add_edges_from([(2, 1), (1, 3), (1, 0), (3, 4)])
     assert list(g.nodes) == [2, 1, 3, 0, 4] and list(g.neighbors(1)) == [2, 3, 0] == list(g.adj[1])
     g2 = nx.Graph(); g2.add_edges_from([(2, 1), (1, 2), (1, 1), (2, 1)])
     assert list(g2.neighbors(1)) == [2, 1]
     assert list(itertools.combinations([2, 3, 0], 2)) == [(2, 3), (2, 0), (3, 0)]
+    # batch 8: g.edges, list.remove (the examples of Props/C19Code8.lean)
+    assert list(g.edges) == [(2, 1), (1, 3), (1, 0), (3, 4)] and list(g2.edges) == [(2, 1), (1, 1)]
+    g3 = nx.Graph(); g3.add_edges_from([(0, 1), (2, 3), (3, 1), (2, 0)])
+    assert list(g3.edges) == [(0, 1), (0, 2), (1, 3), (2, 3)]
+    xs = [2, 3, 2, 0]; xs.remove(2)
+    assert xs == [3, 2, 0] == remove([2, 3, 2, 0], 2) and remove([2, 3, 0], 5) is None
+    try:
+        [2, 3, 0].remove(5)
+        raise AssertionError
+    except ValueError:
+        pass
+    assert [(x, y) for x in [1, 2] for y in [7, 8, 9]] == [(1, 7), (1, 8), (1, 9), (2, 7), (2, 8), (2, 9)]
+    assert list(dict.fromkeys([3, 1, 3, 2, 1]).keys()) == [3, 1, 2] == list(dict.fromkeys([3, 1, 3, 2, 1]))      # Py6.fromkeysList
+    assert list(dict.fromkeys([("b", "a"), ("a",), ("b", "a")])) == [("b", "a"), ("a",)]
+    assert [3, 1, 2, 1].index(1) == 1 and [3, 1, 2].index(2) == 2                                                # Py6.listIndex?
+    try:
+        [3, 1, 2].index(5)
+        raise AssertionError
+    except ValueError:
+        pass
+    assert len({1, 2, 2}) == 2                                                                                   # Py.setLen on `exclude`
     import random
     rnd = random.Random(6)
     for _ in range(300):
         edges = [(rnd.randrange(6), rnd.randrange(6)) for _ in range(rnd.randrange(9))]
         g = nx.Graph(); g.add_edges_from(np.array(edges).reshape(-1, 2).tolist())
         assert list(g.nodes) == nodes(edges), edges
+        assert [tuple(e) for e in g.edges] == edges_of(edges), edges
         for n in g.nodes:
             assert list(g.neighbors(n)) == neighbors(edges, n) == list(g.adj[n]), (edges, n)
             assert list(itertools.combinations(g.neighbors(n), 2)) == comb2(neighbors(edges, n))
